@@ -671,3 +671,6 @@ func (n *VNode) VProcessOutputs(blk *types.WorkObject) (types.Receipts, []*types
 	batch.Reset()
 	return receipts, etxs, err
 }
+
+// VHasSnapshots reports whether the zone's state processor runs with a state snapshot tree.
+func (n *VNode) VHasSnapshots() bool { return n.Sl[2].hc.bc.processor.snaps != nil }
